@@ -130,6 +130,9 @@ class PySeries:
     def cast(self, _t):
         return self
 
+    def n_unique(self):
+        return len(self.unique())
+
     def __getattr__(self, name):
         if name.startswith("__"):
             raise AttributeError(name)
@@ -142,9 +145,13 @@ FakeColumn = PySeries
 class FakeFrame:
     """dict-of-lists frame: height, width, shape, columns, row(i[, named]), df[col][i], df[a:b], slice, select."""
 
-    def __init__(self, data):
-        self._d = {k: list(v) for k, v in data.items()}
-        self.columns = list(self._d.keys())
+    def __init__(self, data, order=None):
+        # column order is kept in an explicit list: under CrossHair re-assigning a dict key may move it
+        self.columns = list(order) if order is not None else list(data.keys())
+        self._d = {k: list(data[k]) for k in self.columns}
+
+    def _new(self, d, order=None):
+        return type(self)(d, order=order if order is not None else [c for c in self.columns if c in d] + [c for c in d if c not in self.columns])
 
     @property
     def height(self):
@@ -181,42 +188,44 @@ class FakeFrame:
                 raise Unsupported("stand-in frame has no column %r" % key)
             return PySeries(self._d[key], key)
         if isinstance(key, slice):
-            return FakeFrame({c: v[key] for c, v in self._d.items()})
+            return self._new({c: self._d[c][key] for c in self.columns})
         raise Unsupported("FakeFrame[%r]" % (key,))
 
     def slice(self, offset, length=None):
         end = None if length is None else offset + length
-        return FakeFrame({c: v[offset:end] for c, v in self._d.items()})
+        return self._new({c: self._d[c][offset:end] for c in self.columns})
 
     def head(self, n=5):
         return self.slice(0, n)
 
     def clone(self):
-        return FakeFrame(self._d)
+        return self._new(dict(self._d), order=self.columns)
 
     def select(self, cols):
         if isinstance(cols, str):
             cols = [cols]
-        return FakeFrame({c: self._d[c] for c in cols})
+        return self._new({c: self._d[c] for c in cols}, order=list(cols))
 
     def get_column(self, c):
         return PySeries(self._d[c], c)
 
     def with_columns(self, *series):
-        d = dict(self._d)
+        d = {c: self._d[c] for c in self.columns}
+        order = list(self.columns)
+        flat = []
         for s in series:
-            if isinstance(s, (list, tuple)):
-                for x in s:
-                    d[x.name] = x.to_list()
-            else:
-                d[s.name] = s.to_list()
-        return FakeFrame(d)
+            flat.extend(s if isinstance(s, (list, tuple)) else [s])
+        for x in flat:
+            if x.name not in order:
+                order.append(x.name)
+            d[x.name] = x.to_list()
+        return self._new(d, order=order)
 
     def filter(self, mask):
         if not isinstance(mask, PySeries):
             raise Unsupported("FakeFrame.filter with a polars expression")
         keep = [i for i, m in enumerate(mask) if m]
-        return FakeFrame({c: [v[i] for i in keep] for c, v in self._d.items()})
+        return self._new({c: [self._d[c][i] for i in keep] for c in self.columns}, order=self.columns)
 
     def __getattr__(self, name):
         if name.startswith("__"):
@@ -227,6 +236,9 @@ class FakeFrame:
 class MetaFrame(FakeFrame):
     """What pl.DataFrame(rows, ...) is replaced by inside rtflite.pagination.core: built from row dicts."""
 
+    def _new(self, d, order=None):
+        return FakeFrame(d, order=order if order is not None else list(d))
+
     def __init__(self, rows=None, schema=None, orient=None):
         rows = [dict(r) for r in (rows or [])]
         cols = {}
@@ -236,9 +248,15 @@ class MetaFrame(FakeFrame):
         for r in rows:
             for k in cols:
                 cols[k].append(r.get(k))
+        order = []
+        for r in rows:
+            for k in r:
+                if k not in order:
+                    order.append(k)
         if not rows and schema:
             cols = {k: [] for k in schema}
-        FakeFrame.__init__(self, cols)
+            order = list(schema)
+        FakeFrame.__init__(self, cols, order=order)
         self._n = len(rows)
 
     @property
